@@ -323,7 +323,7 @@ theorem mem_matching {db : DB} {k : Nat} {cols : List Nat} {i : Nat} {r : Row} :
 
 /-- after the restriction test and the set-null pass, what still matches does so through a cascade key -/
 theorem passed_cascade {S : Schema} {c k i : Nat} {db1 : DB} {r : Row} {f : Nat}
-    (hpass : ¬ (hasPolicy S k (depCols S c k) .restrict = true ∧ (matching db1 k (depCols S c k) i).isEmpty = false))
+    (hpass : (matching db1 k (restrictCols S k (depCols S c k)) i).isEmpty = true)
     (hr : r ∈ db1.rows) (hk : r.cls = k) (hf : f ∈ depCols S c k)
     (hv : (nullRow S k (depCols S c k) i r).val f = some i) : (S.fk k f).policy = .cascade := by
   rw [nullRow_val] at hv
@@ -340,12 +340,11 @@ theorem passed_cascade {S : Schema} {c k i : Nat} {db1 : DB} {r : Row} {f : Nat}
     cases hv
   | restrict =>
     exfalso
-    apply hpass
-    refine ⟨hasPolicy_iff.mpr ⟨f, hf, hp⟩, ?_⟩
-    have : r ∈ matching db1 k (depCols S c k) i := mem_matching.mpr ⟨hr, hk, f, hf, hrv⟩
-    cases hm : matching db1 k (depCols S c k) i with
-    | nil => rw [hm] at this; cases this
-    | cons _ _ => rfl
+    have hfr : f ∈ restrictCols S k (depCols S c k) := by
+      simp only [restrictCols, List.mem_filter, beq_iff_eq]; exact ⟨hf, hp⟩
+    have : r ∈ matching db1 k (restrictCols S k (depCols S c k)) i := mem_matching.mpr ⟨hr, hk, f, hfr, hrv⟩
+    rw [List.isEmpty_iff.mp hpass] at this
+    cases this
 
 theorem ev_delDepLinks (S : Schema) (D : Key → Prop) (db : DB) (k c i : Nat) (hv : D (c, i)) :
     Ev S D db { db with links := delDepLinks S k c i db.links } := by
@@ -411,12 +410,12 @@ theorem procDep_spec {S : Schema} {rec : DB → Nat → Nat → Res} (h : RecOK 
     · intro y hp hn
       exact absurd (by simpa [Present, hrows1] using hp) hn
   · simp only [hemp, Bool.false_eq_true, if_false]
-    by_cases hres : (hasPolicy S k (depCols S c k) .restrict && !(matching db1 k (depCols S c k) i).isEmpty) = true
+    by_cases hres : (!(matching db1 k (restrictCols S k (depCols S c k)) i).isEmpty) = true
     · simp only [hres, if_true]
       exact ⟨e1, fun db' hok => by cases hok⟩
     · simp only [hres, Bool.false_eq_true, if_false]
-      have hpass : ¬ (hasPolicy S k (depCols S c k) .restrict = true ∧ (matching db1 k (depCols S c k) i).isEmpty = false) := by
-        intro ⟨a, b⟩; apply hres; simp [a, b]
+      have hpass : (matching db1 k (restrictCols S k (depCols S c k)) i).isEmpty = true := by
+        simpa using hres
       have e2 : Ev S D db1 (nullRefs S db1 k (depCols S c k) i) := ev_nullRefs S D db1 k c i hv
       have e12 := e1.trans e2
       generalize hdb2 : nullRefs S db1 k (depCols S c k) i = db2 at e2 e12 ⊢
@@ -769,8 +768,8 @@ theorem procDep_nofuel {S : Schema} {rec : DB → Nat → Nat → Res} {ρ : Key
   · split
     · rfl
     · next hres =>
-      have hpass : ¬ (hasPolicy S k (depCols S c k) .restrict = true ∧ (matching db1 k (depCols S c k) i).isEmpty = false) := by
-        intro ⟨a, b⟩; apply hres; simp [a, b]
+      have hpass : (matching db1 k (restrictCols S k (depCols S c k)) i).isEmpty = true := by
+        simpa using hres
       have e2 := ev_nullRefs S (fun _ => True) db1 k c i trivial
       split
       · apply destroyRows_nofuel h ht k _ _ (Ranked.ev (e1.trans e2) hr)
@@ -824,5 +823,124 @@ theorem destroy_nofuel (S : Schema) (ρ : Key → Nat) : ∀ n, NoFuel S ρ n (d
     | ok _ => rfl
     | refused _ => rfl
     | fuel _ => cases h1
+
+/-! ## a refusal is always justified by a cascade=False reference into the closure -/
+
+/-- some row references a member of the cascade closure of `v` through a `cascade=False` key -/
+def Restricted (S : Schema) (db : DB) (v : Key) : Prop :=
+  ∃ x, Reach S db v x ∧ ∃ r ∈ db.rows, ∃ f, (S.fk r.cls f).policy = .restrict ∧ RefVia S r f x
+
+theorem Restricted.back {S : Schema} {D : Key → Prop} {db db' : DB} {v : Key} (h : Ev S D db db')
+    (hq : Restricted S db' v) : Restricted S db v := by
+  obtain ⟨x, hx, r', hr', f, hp, hf⟩ := hq
+  obtain ⟨r, hr, hkey, hb⟩ := h.ref_back hr'
+  have hcls : r.cls = r'.cls := by simpa [Row.key] using congrArg Prod.fst hkey
+  exact ⟨x, Reach.back h hx, r, hr, f, hcls ▸ hp, hb f x hf⟩
+
+theorem Restricted.of_reach {S : Schema} {db : DB} {v w : Key} (h : Reach S db v w) (hq : Restricted S db w) :
+    Restricted S db v := by
+  obtain ⟨x, hx, rest⟩ := hq
+  exact ⟨x, h.trans hx, rest⟩
+
+def RefusedOK (S : Schema) (rec : DB → Nat → Nat → Res) : Prop :=
+  ∀ db k j db', rec db k j = .refused db' → Restricted S db (k, j)
+
+theorem destroyRows_refused {S : Schema} {rec : DB → Nat → Nat → Res} (h : RecOK S rec) (hq : RefusedOK S rec) (k : Nat) :
+    ∀ (ids : List Nat) (db db' : DB), destroyRows rec k ids db = .refused db' → ∃ j ∈ ids, Restricted S db (k, j) := by
+  intro ids
+  induction ids with
+  | nil => intro db db' hr; cases hr
+  | cons i is ih =>
+    intro db db' hr
+    unfold destroyRows at hr
+    split at hr
+    · have e1 := h.ev db k i
+      cases hrec : rec db k i with
+      | ok db1 =>
+        rw [hrec] at hr e1
+        simp only at hr
+        obtain ⟨j, hj, hres⟩ := ih db1 db' hr
+        exact ⟨j, by simp [hj], hres.back e1⟩
+      | refused db1 =>
+        exact ⟨i, by simp, hq db k i db1 hrec⟩
+      | fuel db1 =>
+        rw [hrec] at hr
+        cases hr
+    · obtain ⟨j, hj, hres⟩ := ih db db' hr
+      exact ⟨j, by simp [hj], hres⟩
+
+theorem procDep_refused {S : Schema} {rec : DB → Nat → Nat → Res} (h : RecOK S rec) (hq : RefusedOK S rec)
+    (c i : Nat) (db db' : DB) (k : Nat) (hr : procDep S rec c i db k = .refused db') : Restricted S db (c, i) := by
+  unfold procDep at hr
+  simp only at hr
+  have e1 := ev_delDepLinks S (fun _ => True) db k c i trivial
+  generalize hdb1 : ({ db with links := delDepLinks S k c i db.links } : DB) = db1 at e1 hr
+  have hrows1 : db1.rows = db.rows := by subst hdb1; rfl
+  split at hr
+  · cases hr
+  · split at hr
+    · next hne =>
+      -- refused here: a row holds the victim's id in a cascade=False column
+      cases hm : matching db1 k (restrictCols S k (depCols S c k)) i with
+      | nil => rw [hm] at hne; simp at hne
+      | cons r rs =>
+        have hrm : r ∈ matching db1 k (restrictCols S k (depCols S c k)) i := by rw [hm]; simp
+        obtain ⟨hr1, hk, f, hf, hv⟩ := mem_matching.mp hrm
+        simp only [restrictCols, List.mem_filter, beq_iff_eq] at hf
+        exact ⟨(c, i), .refl, r, hrows1 ▸ hr1, f, hk ▸ hf.2, by rw [hk]; exact (mem_depCols.mp hf.1).1, hv⟩
+    · next hres =>
+      have hpass : (matching db1 k (restrictCols S k (depCols S c k)) i).isEmpty = true := by
+        simpa using hres
+      have e2 := ev_nullRefs S (fun _ => True) db1 k c i trivial
+      have e12 := e1.trans e2
+      split at hr
+      · obtain ⟨j, hj, hres⟩ := destroyRows_refused h hq k _ _ _ hr
+        simp only [List.mem_map] at hj
+        obtain ⟨r2, hr2, rfl⟩ := hj
+        obtain ⟨hr2m, hk2, f, hf, hfv⟩ := mem_matching.mp hr2
+        have hr2m' := hr2m
+        simp only [nullRefs, List.mem_map] at hr2m
+        obtain ⟨r1, hr1, rfl⟩ := hr2m
+        rw [nullRow_cls] at hk2
+        have hp := passed_cascade hpass hr1 hk2 hf hfv
+        have hc : CascRef S (nullRow S k (depCols S c k) i r1) (c, i) :=
+          ⟨f, by rw [nullRow_cls, hk2]; exact hp, by rw [nullRow_cls, hk2]; exact (mem_depCols.mp hf).1, hfv⟩
+        have hkey : (nullRow S k (depCols S c k) i r1).key = (k, (nullRow S k (depCols S c k) i r1).id) := by
+          simp [Row.key, nullRow_cls, hk2]
+        have hreach : Reach S (nullRefs S db1 k (depCols S c k) i) (c, i) (k, (nullRow S k (depCols S c k) i r1).id) :=
+          hkey ▸ Reach.step hr2m' hc .refl
+        exact (Restricted.of_reach hreach hres).back e12
+      · cases hr
+
+theorem procDeps_refused {S : Schema} {rec : DB → Nat → Nat → Res} (h : RecOK S rec) (hq : RefusedOK S rec)
+    (c i : Nat) : ∀ (ks : List Nat) (db db' : DB), procDeps S rec c i ks db = .refused db' → Restricted S db (c, i) := by
+  intro ks
+  induction ks with
+  | nil => intro db db' hr; cases hr
+  | cons k ks ih =>
+    intro db db' hr
+    unfold procDeps at hr
+    have e1 := (procDep_spec h (fun _ => True) c i db k trivial (fun _ _ _ _ _ _ _ => trivial)).1
+    cases hrec : procDep S rec c i db k with
+    | ok db1 =>
+      rw [hrec] at hr e1
+      simp only at hr
+      exact (ih db1 db' hr).back e1
+    | refused db1 => exact procDep_refused h hq c i db db1 k hrec
+    | fuel db1 => rw [hrec] at hr; cases hr
+
+theorem refusedOK_destroy (S : Schema) : ∀ n, RefusedOK S (destroy S n)
+  | 0 => fun _ _ _ _ hr => by cases hr
+  | n + 1 => by
+    intro db c i db' hr
+    change destroyStep S (destroy S n) db c i = .refused db' at hr
+    unfold destroyStep at hr
+    simp only at hr
+    have e0 := ev_delOwnLinks S (fun _ => True) db c i trivial
+    cases hrec : procDeps S (destroy S n) c i (dependents S c) { db with links := delOwnLinks S c i db.links } with
+    | ok db2 => rw [hrec] at hr; cases hr
+    | refused db2 =>
+      exact (procDeps_refused (recOK_destroy S n) (refusedOK_destroy S n) c i _ _ _ hrec).back e0
+    | fuel db2 => rw [hrec] at hr; cases hr
 
 end SqlObjVerif.Graph
